@@ -279,15 +279,17 @@ def check_property(pid: str, tier: str) -> int:
     (OUT / "replay").mkdir(parents=True, exist_ok=True)
     vcount = 0
     reported_sigs = set()
+    searched = False
     for kind, r in violations:
         vcount += 1
         path = OUT / "replay" / f"{pid}_obligation_{vcount}.json"
         concrete = oracle_fail_new[0] if oracle_fail_new else None
-        if concrete is None and oracle is not None and P.get("oracle", True):
-            # guided search: a second, longer, differently seeded oracle run focused on this property
+        if concrete is None and not searched and oracle is not None and P.get("oracle", True):
+            # guided search (once per run): a second, differently seeded oracle run for a concrete failing input
+            searched = True
             o2 = run_oracle(pid, "thorough" if tier == "thorough" else "quick", seed + 1)
-            fresh_f = [f for f in o2.get("failures", []) if known_for_signature(f.get("signature", "")) is None]
-            concrete = fresh_f[0] if fresh_f else None
+            oracle_fail_new = [f for f in o2.get("failures", []) if known_for_signature(f.get("signature", "")) is None]
+            concrete = oracle_fail_new[0] if oracle_fail_new else None
         doc = {"property": pid, "kind": "failed-obligation", "obligation": r["obligation"], "obligation_kind": r["kind"],
                "source_line": r.get("line"), "solver": r["backend"], "verifier_output": r["detail"],
                "failure": concrete, "replay_cmd": f"./check --replay {path}"}
